@@ -13,7 +13,14 @@ from pydrobert.speech import post
 # (the kind of a target is decided by its suffix exactly as written: ".npy" / ".npz", anything else - upper-case
 # look-alikes included - is raw binary)
 PATHS = [("a", "npy", "a.npy"), ("b", "npz", "b.npz"), ("c", "raw", "c.bin"), ("d", "npz", "d.npz"),
-         ("e", "raw", "E.NPY"), ("f", "raw", "f.Npz")]
+         ("e", "raw", "E.NPY"), ("f", "raw", "f.Npz"),
+         # relative names (the driver works inside the scenario's directory) that merely BEGIN like a Kaldi
+         # "ark:" / "scp:" specifier
+         ("g", "npy", "scp_stats.npy"), ("h", "npz", "ark-cmvn.npz")]
+
+
+def target(d, fn):
+    return fn if fn[:3] in ("scp", "ark") else os.path.join(d, fn)
 
 
 def model_check(run, tier):
@@ -148,11 +155,13 @@ def drive(run, tier, rng, focus):
     ntr = (300 if tier == "quick" else 2500)
     traces = []
     tmp = tempfile.mkdtemp(prefix="verif_std_")
+    cwd0 = os.getcwd()
     vec_pool = {1: [[-3], [2], [0], [5]], 2: [[-1, 2], [0, -3], [4, 4], [-2, -2]], 3: [[1, -1, 0], [-3, 2, 2], [0, 0, -4]]}
     try:
         for tid in range(1, ntr + 1):
             d = os.path.join(tmp, "t%d" % tid)
             os.makedirs(d)
+            os.chdir(d)
             norm_var = rng.random() < 0.6
             objs = [post.Standardize(norm_var=norm_var) for _ in range(3)]
             bags = [[] for _ in range(3)]          # python-side bag (incl. what was loaded, as stats)
@@ -213,7 +222,7 @@ def drive(run, tier, rng, focus):
                             if forced is not None:
                                 (pn, kind, fn), key = forced[2], forced[3]
                             z = np.zeros((2, D + 1), dtype=np.float64)
-                            path = os.path.join(d, fn)
+                            path = target(d, fn)
                             if kind == "npy":
                                 with open(path, "wb") as f:
                                     np.save(f, z)
@@ -238,11 +247,11 @@ def drive(run, tier, rng, focus):
                                 # the flags are accepted for every kind of target; for .npy / raw they change nothing
                                 kw = dict(overwrite=ow, compress=comp)
                             try:
-                                objs[i].save(os.path.join(d, fn), **kw)
+                                objs[i].save(target(d, fn), **kw)
                             finally:
-                                ev["file"] = inspect_file(os.path.join(d, fn), kind)
+                                ev["file"] = inspect_file(target(d, fn), kind)
                         else:
-                            cands = [(pn, kind, fn) for (pn, kind, fn) in PATHS if os.path.exists(os.path.join(d, fn))]
+                            cands = [(pn, kind, fn) for (pn, kind, fn) in PATHS if os.path.exists(target(d, fn))]
                             if not cands:
                                 continue
                             pn, kind, fn = rng.choice(cands)
@@ -250,17 +259,17 @@ def drive(run, tier, rng, focus):
                             kw = {}
                             if forced is not None:
                                 pn, kind, fn = forced[2]
-                                if not os.path.exists(os.path.join(d, fn)):
+                                if not os.path.exists(target(d, fn)):
                                     continue
                             if forced is not None and kind == "npz":
-                                keys = [e["key"] for e in inspect_file(os.path.join(d, fn), kind).get("entries", [])]
+                                keys = [e["key"] for e in inspect_file(target(d, fn), kind).get("entries", [])]
                                 key = forced[3]
                                 if (key or "arr_0") not in keys:
                                     continue
                                 if key:
                                     kw["key"] = key
                             elif kind == "npz":
-                                keys = [e["key"] for e in inspect_file(os.path.join(d, fn), kind).get("entries", [])]
+                                keys = [e["key"] for e in inspect_file(target(d, fn), kind).get("entries", [])]
                                 if "arr_0" in keys and rng.random() < 0.5:
                                     key = ""
                                 elif keys:
@@ -274,7 +283,7 @@ def drive(run, tier, rng, focus):
                             if kind == "raw":
                                 kw["force_as"] = "file"
                             ev.update(j=i + 1, p={"name": pn, "kind": kind}, key=key)
-                            new = post.Standardize(os.path.join(d, fn), norm_var=norm_var, **kw)
+                            new = post.Standardize(target(d, fn), norm_var=norm_var, **kw)
                             objs[i] = new
                             bags[i] = []
                             base[i] = stats_of(new)
@@ -291,8 +300,10 @@ def drive(run, tier, rng, focus):
                     # after a refused call the objects stay usable; keep going
                     pass
             traces.append({"tid": tid, "norm_var": norm_var, "events": events})
+            os.chdir(cwd0)
             shutil.rmtree(d, ignore_errors=True)
     finally:
+        os.chdir(cwd0)
         shutil.rmtree(tmp, ignore_errors=True)
     rejected, tr = common.validate_traces_parallel("MC_TraceStandardize", "TraceStandardize.cfg", traces, shards=8)
     if tr.violated:
